@@ -18,6 +18,7 @@ import (
 func init() {
 	props["C01"] = func(c *Ctx) { runProcK3(c, "C01") }
 	props["C05"] = func(c *Ctx) { runProcK3(c, "C05") }
+	props["C02"] = func(c *Ctx) { runProcK3(c, "C02"); runC02Extra(c) }
 }
 
 type k3replay struct {
@@ -60,6 +61,9 @@ func runProcK3(c *Ctx, prop string) {
 	seq := 0
 	doRun := func(sc k3scenario, rng *Rng, mode int) *k3run {
 		seq++
+		if seq%25 == 1 {
+			c.Progress(map[string]interface{}{"about": "K3 schedule in progress (this or one of the next 24; schedules derive from the seed)", "seq": seq, "scenario": sc, "seed": c.Seed})
+		}
 		run := runK3(node, helper, sc, rng, mode, seq)
 		runs = append(runs, run)
 		return run
@@ -168,6 +172,28 @@ func runProcK3(c *Ctx, prop string) {
 				r.Violation(sig, "two callbacks of the target process executed at the same time (overlap detector inside the puppet callbacks)", rp)
 			}
 			_ = d7
+		case "C02":
+			seen := map[int]bool{}
+			for _, id := range run.handled {
+				if seen[id] {
+					r.Violation("C02/handled-twice", fmt.Sprintf("message %d was handled twice", id), rp)
+				}
+				seen[id] = true
+				if run.errSends[id] {
+					r.Violation("C02/refused-but-handled", fmt.Sprintf("send of message %d reported an error but the message was handled", id), rp)
+				}
+			}
+			if run.stuck == "" && run.finalSt == int(gen.ProcessStateSleep) {
+				r.Count("ended-asleep")
+				if run.finalLen != 0 {
+					r.Violation("C02/lost-wakeup", fmt.Sprintf("all threads finished, process asleep, %d message(s) left in the mailbox: nobody will look at them", run.finalLen), rp)
+				}
+				for id := range run.okSends {
+					if !seen[id] {
+						r.Violation("C02/accepted-not-handled", fmt.Sprintf("send of message %d returned nil, the process is alive and idle, but the message was never handled", id), rp)
+					}
+				}
+			}
 		case "C05":
 			if run.terms > 1 {
 				r.Violation("C05/terminate-twice", fmt.Sprintf("ProcessTerminate ran %d times", run.terms), rp)
